@@ -107,7 +107,8 @@ def replay(scn):
     elif "s" in kinds:
         variants = [kinds]
     else:
-        variants = [kinds, ["f" if (n == "x") else k for n, k in zip(i["a"]["dims"], kinds)]]
+        variants = [kinds, ["f" if (n == "x") else k for n, k in zip(i["a"]["dims"], kinds)],
+                    ["u" if (n == "x") else k for n, k in zip(i["a"]["dims"], kinds)]]        # unsigned integer labels on the sliced axis
     extra = []
     if i["mode"] == "label" and i["cls"] in ("mono", "mono-embedded") and "s" not in kinds:
         # integer axis (labels h/2, h even) sliced with bounds that may be fractional (h/2 as floats)
